@@ -145,6 +145,18 @@ def pipe(sel: List[int], fs: int) -> bool:
             # documented refusal: typed literal while the datatype table is disabled
             return fin(M, needs_disabled_datatype(items), sel=sel, fs=fs)
         if mode in ("roundtrip", "all"):
+            with notrace():
+                # the reader's tables are sized from the matching header fields (internal attribute names: skipped if renamed)
+                try:
+                    import io as _io
+                    from pyjelly.parse.decode import Decoder
+                    from pyjelly.parse.ioutils import get_options_and_frames
+                    from pyjelly.integrations.generic.parse import GenericTriplesAdapter
+                    _po, _ = get_options_and_frames(_io.BytesIO(bytes(data)))
+                    _d = Decoder(adapter=GenericTriplesAdapter(_po))
+                    ok = ok and (_d.names.lookup_size, _d.prefixes.lookup_size, _d.datatypes.lookup_size) == (P["names"], P["prefixes"], P["datatypes"])
+                except AttributeError:
+                    pass
             with notrace():  # data is concrete here: nothing symbolic can flow into the parser
                 kw = {"quads": phys != 1} if integ == "rdflib" else {}
                 got = [norm_item(i) for i in par(bytes(data), entry=P.get("pentry", "flat"), **kw)]
